@@ -21,7 +21,7 @@ LEVEL_ASSUMPTIONS = [
     "(validated on the documented Liu-Teng example at start-up)"]
 REQUIRED = {"model_comparisons": 1000, "history_dirty_dest": 500,
             "pair_history_decodes": 20000, "pair_instances": 8,
-            "hugearea_decodes": 20,
+            "hugearea_decodes": 20, "staircase_decodes": 18,
             "model_down_and_left": 200, "model_earlier_bin_used": 50,
             "model_forced_rotation": 20}
 
@@ -177,6 +177,20 @@ def hugearea_shard(ctx, args):
         run_history(ctx, desc, e, steps)
         ctx.count("histories")
         ctx.count("hugearea_decodes", len(steps))
+    # long move chains: columns 1 x k with tops rising towards the right
+    # wall, then one more 1 x 1 item that walks down the staircase (two moves
+    # per step - several hundred moves for a single item)
+    for w in (12, 130, int(rng.choice([520, 600]))):
+        items = [[1, k, 2 if k == 1 else 1] for k in range(1, w + 1)]
+        sd = {"name": wb._name(rng), "W": w, "H": w + 1, "items": items,
+              "cls": "staircase"}
+        perm = list(range(1, w + 1)) + [1]
+        ctx.count("inst_cls[staircase]")
+        for e in (1, 2):
+            run_history(ctx, sd, e, [(perm, "zero", 0, 0),
+                                     (perm[::-1], "keep", 0, 0),
+                                     (perm, "keep", 0, 0)])
+            ctx.count("staircase_decodes", 3)
 
 
 def run_shard(ctx, args):
